@@ -86,6 +86,14 @@ class Check:
         """execute scenarios in isolated workers, validate with the trace spec `module`"""
         if not scenarios:
             return []
+        # verdicts are keyed by scenario id: a generator that emits the same id twice (the same random choice drawn twice)
+        # contributes the scenario once
+        seen, uniq = set(), []
+        for scn in scenarios:
+            if scn["id"] not in seen:
+                seen.add(scn["id"])
+                uniq.append(scn)
+        scenarios = uniq
         results = pool.run_all(scenarios, seed=self.seed, fn=fn, repo=repo)
         self.stats["scenarios"] += len(results)
         good = []
